@@ -302,7 +302,7 @@ pub const STATE_NAMES: [&str; 9] = ["Error", "Key", "ObjectValue", "KeyValueSepa
 
 /// the private machine fields, read from the derived `Debug` output
 /// (mode, depth stack bottom→top, state, needs_line_terminator, mixed_mode)
-fn debug_fields(w: &TextWriter<Vec<u8>>) -> Option<(String, Vec<String>, String, String, String)> {
+fn debug_fields<W: std::io::Write + std::fmt::Debug>(w: &TextWriter<W>) -> Option<(String, Vec<String>, String, String, String)> {
     let d = format!("{:?}", w);
     let after = |from: usize, key: &str| -> Option<usize> { d[from..].find(key).map(|p| from + p + key.len()) };
     let upto = |from: usize, ends: &[char]| -> String { d[from..].chars().take_while(|c| !ends.contains(c)).collect() };
@@ -320,7 +320,7 @@ fn debug_fields(w: &TextWriter<Vec<u8>>) -> Option<(String, Vec<String>, String,
     Some((mode, depth, state, nlt, mixed))
 }
 
-fn st_string(w: &TextWriter<Vec<u8>>) -> String {
+fn st_string<W: std::io::Write + std::fmt::Debug>(w: &TextWriter<W>) -> String {
     match debug_fields(w) {
         None => "st:?".to_string(),
         Some((mode, depth, state, nlt, mixed)) => {
@@ -374,11 +374,12 @@ pub fn exec(w: &[&str], obs: &mut Obs) -> Option<String> {
             s.push_str(&r.st);
             Some(s)
         }
-        // implementation-only: the same calls into a writer that takes <cap> bytes and then fails.  No call may
-        // panic; what reached the writer is a prefix of the full output; every call up to the first one that needs
-        // more room returns what it returns with an unlimited writer, that one returns Err(io); when the output
-        // fits, nothing fails.
-        ["x-wcallsw", c, f, cap_s, rest @ ..] => {
+        // the same calls into a writer that takes <cap> bytes and then fails (model: Model/WriterSink.lean,
+        // C15_failing_sink).  Result: bytes that reached the sink, per call the observation or the error, the
+        // private state at the end — after a failed call too (`&mut self` keeps what the call did before the `?`).
+        // Oracle: no call panics; the sink holds a prefix of the full output; an I/O error happens iff the
+        // output does not fit; before the first I/O error every call answers as with an unlimited writer.
+        ["wcallsw", c, f, cap_s, rest @ ..] => {
             let ic: u8 = c.parse().ok()?;
             let fac: u8 = f.parse().ok()?;
             let cap: usize = cap_s.parse().ok()?;
@@ -387,20 +388,30 @@ pub fn exec(w: &[&str], obs: &mut Obs) -> Option<String> {
             let full = run_real(ic, fac, &calls);
             let mut sink = crate::props::c14::FailingWriter { cap, got: vec![] };
             let mut first_io: Option<usize> = None;
+            let mut rows: Vec<String> = vec![];
+            let st;
             {
                 let mut wr = TextWriterBuilder::new().indent_char(ic).indent_factor(fac).from_writer(&mut sink);
                 for (i, call) in calls.iter().enumerate() {
                     let r = apply(&mut wr, call);
                     let io = matches!(r.as_ref().err().map(|e| e.kind()), Some(jomini::ErrorKind::Io(_)));
                     if io && first_io.is_none() { first_io = Some(i); }
-                    if first_io.is_none() {
-                        // before the writer is full every call behaves as with an unlimited writer
-                        let same = match (&r, &full.rows[i]) { (Ok(()), Ok(_)) => true, (Err(_), Err(_)) => true, _ => false };
-                        if !same { obs.violation("failing-writer-call-result", &case, &format!("call {}: {:?} vs unlimited {:?}", i, r.is_ok(), full.rows[i].is_ok())); }
+                    let row = match &r {
+                        Ok(()) => Ok(ObsRow { depth: wr.depth(), key: wr.expecting_key(), arr: wr.at_array_value(), unk: wr.at_unknown_start() }),
+                        Err(e) => Err(match e.kind() {
+                            jomini::ErrorKind::StackEmpty { .. } => "err:stackempty".to_string(),
+                            jomini::ErrorKind::Io(_) => "err:io".to_string(),
+                            _ => "err:other".to_string(),
+                        }),
+                    };
+                    if first_io.is_none() && row != full.rows[i] {
+                        obs.violation("failing-writer-call-result", &case, &format!("call {}: {:?} vs unlimited {:?}", i, row, full.rows[i]));
                     }
+                    rows.push(match row { Ok(o) => format!("{}/{}{}{}", o.depth, o.key as u8, o.arr as u8, o.unk as u8), Err(e) => e });
                 }
                 // `inner()` hands out the sink without consuming the writer
                 if wr.inner().got.len() > cap { obs.violation("failing-writer-prefix", &case, "the sink holds more than its capacity"); }
+                st = st_string(&wr);
             }
             if !full.out.starts_with(&sink.got) || sink.got.len() != cap.min(full.out.len()) {
                 obs.violation("failing-writer-prefix", &case, &format!("writer got {} full output {}", hex(&sink.got), hex(&full.out)));
@@ -409,7 +420,11 @@ pub fn exec(w: &[&str], obs: &mut Obs) -> Option<String> {
                 obs.violation("failing-writer-result", &case, &format!("cap {} output length {} first io error at call {:?}", cap, full.out.len(), first_io));
             }
             obs.count(if first_io.is_some() { "wcallsw:err" } else { "wcallsw:ok" });
-            Some(match first_io { Some(i) => format!("err:{}", i), None => "ok".to_string() })
+            let mut out = hex(&sink.got);
+            for r in &rows { out.push(' '); out.push_str(r); }
+            out.push(' ');
+            out.push_str(&st);
+            Some(out)
         }
         _ => None,
     }
@@ -1255,7 +1270,7 @@ pub fn gen_c15(g: &mut Gen) {
     for calls in &fixed {
         let len = run_real(b' ', 2, calls).out.len();
         let tail: String = calls.iter().map(call_token).collect::<Vec<_>>().join(" ");
-        for cap in 0..=len + 1 { g.emit(format!("x-wcallsw 32 2 {} {}", cap, tail)); }
+        for cap in 0..=len + 1 { g.emit(format!("wcallsw 32 2 {} {}", cap, tail)); }
     }
     let n = g.budget(400, 8_000);
     for _ in 0..n {
@@ -1266,7 +1281,22 @@ pub fn gen_c15(g: &mut Gen) {
         let len = run_real(b' ', 2, &calls).out.len();
         let cap = g.rng.below(len + 3);
         let tail: String = calls.iter().map(call_token).collect::<Vec<_>>().join(" ");
-        g.emit(format!("x-wcallsw 32 2 {} {}", cap, tail));
+        g.emit(format!("wcallsw 32 2 {} {}", cap, tail));
+    }
+    // arbitrary (mostly ill-formed) call lists, mixed mode, rgb, write_start: every cap for short lists
+    let n = g.budget(500, 10_000);
+    for i in 0..n {
+        let len = 1 + g.rng.size(9);
+        let calls: Vec<Call> = (0..len).map(|_| random_call(&mut g.rng)).collect();
+        let (ic, fac) = indent_cfg(&mut g.rng);
+        let out_len = run_real(ic, fac, &calls).out.len();
+        let tail: String = calls.iter().map(call_token).collect::<Vec<_>>().join(" ");
+        if i % 10 == 0 && out_len <= 40 {
+            for cap in 0..=out_len + 1 { g.emit(format!("wcallsw {} {} {} {}", ic, fac, cap, tail)); }
+        } else {
+            let cap = g.rng.below(out_len + 3);
+            g.emit(format!("wcallsw {} {} {} {}", ic, fac, cap, tail));
+        }
     }
     g.count("failing-writer");
 }
